@@ -295,6 +295,7 @@ func checkC08(r *core.Run) {
 		}
 	}
 	r.Count("group_obligations", nGroupObl)
+	ruleSingleParser(r, prog, "C08", nil)
 }
 
 func isRangeKeyOverImportMatchers(info *types.Info, fd *ast.FuncDecl, key *ast.Ident) bool {
